@@ -33,7 +33,7 @@ TRUSTED_BASE = [
 GLOBAL_ASSUMPTIONS = [
     'machine arithmetic is bit-precise (nothing treated as mathematical integers); unsigned wrap-around is defined behaviour and not flagged',
     'verified text = unmodified /repo sources compiled by goto-cc instead of gcc (same -I include, -std=gnu99); object code and optimisation levels are not verified',
-    'enum-typed field identifiers that are compared inside the code under verification are restricted to [0, 2^31): CBMC promotes enum operands to signed int, GCC to unsigned int',
+    'the identifier types of the five legacy wrapper pairs are compiled as unsigned int (guarded hook COVESA_OPEN1722_VERIF in the five headers): CBMC would otherwise compare enum operands as signed int where GCC compares them as unsigned int',
     'GCC facts shared by compiler and verifier: enums are 32 bit, uint8_t payload[0] has size 0, unsigned __int128 exists (spec only)',
 ]
 
@@ -183,6 +183,7 @@ def cmd_check(pid, tier, seed):
     funcs, samples, bounded, warnings, assumptions = set(), [], [], set(), set(GLOBAL_ASSUMPTIONS)
     solver_s = 0.0
     loop_modes = []
+    fallbacks, superseded = [], []
     named_ok = 0
     per_class = {}
     for r in results:
@@ -192,9 +193,14 @@ def cmd_check(pid, tier, seed):
             warnings.add(w)
         for a in j.assumptions:
             assumptions.add(a)
+        if r.status == 'superseded':       # could not be built on this tree; a shared fallback obligation covers it
+            superseded.append({'obligation': j.name, 'note': r.reason})
+            continue
         if r.status == 'undecided':
             undecided.append(r)
             continue
+        if r.fallback_note:
+            fallbacks.append({'obligation': j.name, 'note': r.fallback_note, 'bounded': j.bounded})
         if j.function:
             funcs.add(j.function)
         if j.bounded:
@@ -289,6 +295,8 @@ def cmd_check(pid, tier, seed):
         'configurations': sorted(set(j.config for j in sel)),
         'loop_contracts': loop_modes,
         'bounded_stand_ins': bounded,
+        'fallback_obligations_used': fallbacks,
+        'obligations_superseded_by_fallback': superseded,
         'vacuity_guard': 'every harness ends in a reachability canary that must be reported FAILED; %d canaries checked' % sum(1 for r in results if r.canary_ok),
         'tool_warnings': sorted(warnings)[:20],
         'samples': samples,
